@@ -45,7 +45,7 @@ func Check() *core.Check {
 		},
 		MinConclusive: func(tier string) int { return 500 },
 		NumPinned:     len(pinned),
-		CaseTimeoutS:  60,
+		CaseTimeoutS:  120,
 		Run:           run,
 	}
 }
@@ -286,10 +286,23 @@ func compareTwins(a, b *world, cs *Case, i int, opA, opB *Op, ra, rb stepRec) {
 	st := a.mon.st
 	st.Inc("twin_steps_compared")
 	rawA, rawB := ra.raw, rb.raw
+	if a.unordered && (opA.Op == "enum" || opA.Op == "enumnext") {
+		// which key is current when the body runs depends on the (undocumented) order of the host map
+		rawA, rawB = "", ""
+	}
 	if a.unordered {
 		switch opA.Op {
 		case "ownKeys", "keys", "forin", "entries", "syms":
 			rawA, rawB = sortList(rawA), sortList(rawB)
+		case "enum":
+			// "[list]|body": the visiting order of an unordered host object is not comparable
+			sortHead := func(s string) string {
+				if i := strings.LastIndex(s, "]|"); i > 0 {
+					return sortList(s[:i+1]) + s[i+1:]
+				}
+				return s
+			}
+			rawA, rawB = sortHead(rawA), sortHead(rawB)
 		}
 	}
 	monitor := "cross-issuer"
